@@ -195,6 +195,28 @@ case!(LazyExts, "LazyExts (enums in an unknown-length seq)", |g| LazyExts(vecof(
 #[derive(Debug, Clone, PartialEq, Serialize, Deserialize)] pub struct FlatThenEnum { #[serde(flatten)] pub inner: Inner, pub id: u8, pub last: Ext }
 case!(FlatThenEnum, "FlatThenEnum (enum last in a flattened struct)", |g| FlatThenEnum { inner: Inner { p: g.u16(), q: s(g) }, id: g.u8(), last: Ext::gen(g) });
 
+// ---- values serialised through `Serializer::collect_str` (what `serialize_with = "display"` helpers, DisplayFromStr wrappers and
+// hand-written "serialise by Display" impls use): the documented representation is the text, read back as a String --------
+#[derive(Debug, Clone, PartialEq)] pub struct ByDisplay(pub String);
+impl Serialize for ByDisplay { fn serialize<S: serde::Serializer>(&self, s: S) -> Result<S::Ok, S::Error> { s.collect_str(&self.0) } }
+impl<'de> Deserialize<'de> for ByDisplay { fn deserialize<D: serde::Deserializer<'de>>(d: D) -> Result<Self, D::Error> { String::deserialize(d).map(ByDisplay) } }
+case!(ByDisplay, "ByDisplay (collect_str, one piece)", |g| { let n = *g.pick(&[0usize, 1, 23, 24, 63, 64, 65, 127, 128, 255, 256, 1000]); let k = g.below(26); ByDisplay(if g.bool() { (0 .. n).map(|i| (b'a' + ((i * 7 + k) % 26) as u8) as char).collect() } else { g.string(80) }) });
+/// Display output produced in several pieces (number, separator, text, number).
+#[derive(Debug, Clone, PartialEq)] pub struct ByDisplayParts { pub a: u32, pub s: String }
+impl std::fmt::Display for ByDisplayParts { fn fmt(&self, f: &mut std::fmt::Formatter<'_>) -> std::fmt::Result { write!(f, "{}:{}", self.a, self.s)?; f.write_str("/")?; write!(f, "{:05}", self.a % 100000) } }
+impl Serialize for ByDisplayParts { fn serialize<S: serde::Serializer>(&self, s: S) -> Result<S::Ok, S::Error> { s.collect_str(self) } }
+impl<'de> Deserialize<'de> for ByDisplayParts {
+    fn deserialize<D: serde::Deserializer<'de>>(d: D) -> Result<Self, D::Error> {
+        let t = String::deserialize(d)?;
+        let (a, rest) = t.split_once(':').ok_or_else(|| serde::de::Error::custom("no colon"))?;
+        let (s, _) = rest.rsplit_once('/').ok_or_else(|| serde::de::Error::custom("no slash"))?;
+        Ok(ByDisplayParts { a: a.parse().map_err(serde::de::Error::custom)?, s: s.to_string() })
+    }
+}
+case!(ByDisplayParts, "ByDisplayParts (collect_str, several pieces)", |g| { let n = *g.pick(&[0usize, 5, 50, 56, 57, 58, 70, 200]); ByDisplayParts { a: g.u32(), s: (0 .. n).map(|i| (b'a' + (i % 26) as u8) as char).collect() } });
+#[derive(Debug, Clone, PartialEq, Serialize, Deserialize)] pub struct WithDisplays { pub id: u8, pub d: ByDisplay, pub p: Vec<ByDisplayParts>, pub o: Option<ByDisplay> }
+case!(WithDisplays, "WithDisplays", top, |g| WithDisplays { id: g.u8(), d: ByDisplay::gen(g), p: vecof(g, ByDisplayParts::gen), o: opt(g, ByDisplay::gen) });
+
 // ---- long and deep documents (cumulative effects: counters, budgets, buffers that only show after many elements) ----
 fn big(g: &mut Gen) -> usize { *g.pick(&[130usize, 300, 1000, 2500]) + g.below(7) }
 #[derive(Debug, Clone, PartialEq, Serialize, Deserialize)] pub struct LongDoc { pub opts: Vec<Option<u16>>, pub units: Vec<()>, pub map: BTreeMap<u32, Option<String>>, pub nested: Vec<Vec<Option<bool>>>, pub exts: Vec<Ext>, pub tail: u8 }
@@ -243,7 +265,7 @@ macro_rules! for_each_case {
             $mac!(Ext), $mac!(HoldsExt), $mac!(Internal), $mac!(Adjacent), $mac!(Untagged), $mac!(Flat), $mac!(FlatMap), $mac!(SkipIf), $mac!(Renamed), $mac!(Lazy), $mac!(Generic<i8>), $mac!(Big),
             $mac!(u64), $mac!(i64), $mac!(i8), $mac!(bool), $mac!(char), $mac!(String), $mac!(()), $mac!(f32), $mac!(f64), $mac!(Option<u32>), $mac!(Vec<u8>), $mac!(Vec<Option<String>>),
             $mac!((u8, (bool, String), [i16; 2])), $mac!(std::collections::BTreeMap<i32, Vec<String>>), $mac!(Buf), $mac!(LazySeq), $mac!(Box<Ext>),
-            $mac!(F32b), $mac!(F64b), $mac!(Floats), $mac!(UntaggedWide), $mac!(UntaggedF32), $mac!(FlatWide), $mac!(InternalWide), $mac!(AdjacentWide), $mac!(LazyExts), $mac!(FlatThenEnum), $mac!(LongDoc), $mac!(Deep),
+            $mac!(F32b), $mac!(F64b), $mac!(Floats), $mac!(UntaggedWide), $mac!(UntaggedF32), $mac!(FlatWide), $mac!(InternalWide), $mac!(AdjacentWide), $mac!(LazyExts), $mac!(FlatThenEnum), $mac!(LongDoc), $mac!(Deep), $mac!(ByDisplay), $mac!(ByDisplayParts), $mac!(WithDisplays),
             $mac!(std::time::Duration), $mac!(std::net::IpAddr), $mac!(std::net::SocketAddr), $mac!(std::ops::Range<u8>), $mac!(std::ops::Bound<i16>), $mac!(Result<u8, String>),
             $mac!(std::num::NonZeroU16), $mac!(std::num::Wrapping<i8>), $mac!(std::cmp::Reverse<u8>), $mac!(std::marker::PhantomData<u8>), $mac!(std::ffi::CString), $mac!(std::path::PathBuf),
             $mac!(std::collections::BTreeSet<u8>), $mac!(std::collections::VecDeque<i16>), $mac!(std::borrow::Cow<'static, str>), $mac!(Box<str>), $mac!([u8; 32]),
